@@ -98,4 +98,23 @@ example :
     WF p = true ∧ bodiesTracked p = false ∧ ((run p ops).get 2).runs = 2 ∧ ((run p ops).get 3).runs = 2 ∧
     unjustIn (run p ops).log = false := by decide +kernel
 
+/-! ## a memo computes at most once per change of its inputs -/
+
+/-- **at most once**: two consecutive reads (of any nodes `a`, `b`) with no write in between log at most
+one `Ev.ran m` for every node `m` (`countRan m suf` = number of `ran m` events in `suf`,
+`Proofs/ReactiveInv.lean`).  All WF programs (effects, untracked reads included). -/
+theorem C09_memo_at_most_once :
+    ∀ (p : Prog) (ops : List Op) (a b m : Nat), WF p = true →
+      ∃ suf, (step p (step p (run p ops) (.read a)).1 (.read b)).1.log = (run p ops).log ++ suf ∧
+        countRan m suf ≤ 1 :=
+  fun _ ops a b m hwf => two_reads_at_most_once hwf ops a b m
+
+/-- non-vacuity: in the diamond `m1 = s`, `m2 = s + m1`, reading `m2` then `m1` after a write runs `m1`
+exactly once (the log suffix contains one `ran 1`) -/
+example :
+    let s := run c09Prog [.read 2, .set 0 1]
+    let s2 := (step c09Prog (step c09Prog s (.read 2)).1 (.read 1)).1
+    countRan 1 (s2.log.drop s.log.length) = 1 ∧ countRan 2 (s2.log.drop s.log.length) = 1 := by
+  decide +kernel
+
 end Leptos.Reactive
